@@ -1012,12 +1012,25 @@ func (agg *aggregate) Process(ctx context.Context, man gdbi.Manager, in gdbi.InP
 					}
 				}
 
+				// most frequent terms first, so that `size` keeps the top buckets
+				terms := make([]interface{}, 0, len(fieldTermCounts))
+				for term := range fieldTermCounts {
+					terms = append(terms, term)
+				}
+				sort.SliceStable(terms, func(i, j int) bool {
+					ci, cj := fieldTermCounts[terms[i]], fieldTermCounts[terms[j]]
+					if ci != cj {
+						return ci > cj
+					}
+					return fmt.Sprintf("%v", terms[i]) < fmt.Sprintf("%v", terms[j])
+				})
 				count := 0
-				for term, tcount := range fieldTermCounts {
+				for _, term := range terms {
 					if size <= 0 || count < int(size) {
 						//sTerm, _ := structpb.NewValue(term)
 						//fmt.Printf("Term: %s %s %d\n", a.Name, sTerm, tcount)
-						out <- &gdbi.BaseTraveler{Aggregation: &gdbi.Aggregate{Name: a.Name, Key: term, Value: float64(tcount)}}
+						out <- &gdbi.BaseTraveler{Aggregation: &gdbi.Aggregate{Name: a.Name, Key: term, Value: float64(fieldTermCounts[term])}}
+						count++
 					}
 				}
 				return outErr
